@@ -806,9 +806,14 @@ def justify_prefix_returns(rc, fi, ev, returns, env, loop, post) -> list:
 ACCOUNTED_RET: Dict[str, list] = {}      # qualname -> predicates over ast.Return nodes after the main loop that a rule has judged by value
 
 
+def _ALL(_r) -> bool:
+    return True
+
+
 def account_returns(fi, predicate=None):
-    """A rule declares that it has judged (by value) the returns after the main loop of fi that satisfy `predicate`."""
-    ACCOUNTED_RET.setdefault(fi.qualname, []).append(predicate or (lambda r: True))
+    """A rule declares that it has judged (by value) the returns after the main loop of fi that satisfy `predicate` (all of
+    them, and every statement after the loop with them, when None: the rule evaluated the whole tail)."""
+    ACCOUNTED_RET.setdefault(fi.qualname, []).append(predicate or _ALL)
 
 
 def _plain_return(e, fi, lk) -> bool:
@@ -842,9 +847,54 @@ def audit_return_forms(ctx):
     for q, (fi, loop) in sorted(READ_LOOPS.items()):
         end = getattr(loop, "end_lineno", None) or getattr(loop, "lineno", 0)
         preds = ACCOUNTED_RET.get(q, [])
+        filled_ = {c.func.value.id for c in ast.walk(loop) if isinstance(c, ast.Call) and isinstance(c.func, ast.Attribute) and c.func.attr in ("append", "extend")
+                   and isinstance(c.func.value, ast.Name)}
+        judged_all = any(p is _ALL for p in preds)
+        if not judged_all:
+            # statements after the loop that change the collected list in place (pop / remove / insert / reverse / clear / a descending
+            # sort / an element store or deletion) are part of "what is returned" just as the return expression is
+            for st in ast.walk(fi.node):
+                if getattr(st, "lineno", 0) <= end or not isinstance(st, (ast.Expr, ast.Assign, ast.AugAssign, ast.Delete)):
+                    continue
+                hit = None
+                if isinstance(st, ast.Expr) and isinstance(st.value, ast.Call) and isinstance(st.value.func, ast.Attribute) and isinstance(st.value.func.value, ast.Name) \
+                        and st.value.func.value.id in filled_:
+                    m_ = st.value.func.attr
+                    if m_ in ("pop", "remove", "insert", "reverse", "clear") or (m_ == "sort" and any(k.arg == "reverse" and not (isinstance(k.value, ast.Constant) and not k.value.value)
+                                                                                                         for k in st.value.keywords)):
+                        hit = st
+                tg = st.targets if isinstance(st, (ast.Assign, ast.Delete)) else ([st.target] if isinstance(st, ast.AugAssign) else [])
+                for t in tg:
+                    if isinstance(t, ast.Subscript) and isinstance(t.value, ast.Name) and t.value.id in filled_:
+                        hit = st
+                if hit is not None:
+                    res.error(f"{q}: `{ast.unparse(hit)[:70]}` (line {hit.lineno}) changes the list collected by the main loop after the loop and is not judged by any rule of this property - shape not recognised")
         for r in ast.walk(fi.node):
             if not isinstance(r, ast.Return) or getattr(r, "lineno", 0) <= end:
                 continue
             if any(p(r) for p in preds) or _plain_return(r.value, fi, lk):
+                continue
+            # a list the pass fills by append, returned with a constant slice or reversed: elements the rules have just shown to
+            # belong to the result are dropped, or their order is inverted, on the way out
+            filled = {c.func.value.id for c in ast.walk(loop) if isinstance(c, ast.Call) and isinstance(c.func, ast.Attribute) and c.func.attr in ("append", "extend")
+                      and isinstance(c.func.value, ast.Name)}
+            cut = None
+            for sub in ast.walk(r.value):
+                if isinstance(sub, ast.Subscript) and isinstance(sub.value, ast.Name) and sub.value.id in filled and isinstance(sub.slice, ast.Slice):
+                    parts = [sub.slice.lower, sub.slice.upper, sub.slice.step]
+
+                    def _c(e):
+                        if e is None:
+                            return True
+                        if isinstance(e, ast.UnaryOp) and isinstance(e.op, ast.USub):
+                            e = e.operand
+                        return isinstance(e, ast.Constant) and isinstance(e.value, int)
+                    trivial = (sub.slice.lower is None or (isinstance(sub.slice.lower, ast.Constant) and sub.slice.lower.value == 0)) and sub.slice.upper is None and sub.slice.step is None
+                    if all(_c(e) for e in parts) and not trivial:
+                        cut = sub
+            if cut is not None:
+                res.rule("A-ret", "what a pass has collected is returned whole and in order: no constant slice or reversal of the list the main loop fills on the way out")
+                res.violation("A-ret", fi.module, fi.name, r, f"the list `{cut.value.id}` filled by the main loop is returned as `{ast.unparse(cut)}`: collected elements are dropped or their order is inverted on the way out",
+                              ast.unparse(r)[:100], f"return the whole list ({cut.value.id})", construct=f"returned slice {fi.name}")
                 continue
             res.error(f"{q}: the return `{ast.unparse(r)[:70]}` (line {r.lineno}) after the main loop transforms the result and is not judged by any rule of this property - shape not recognised")
